@@ -584,8 +584,12 @@ func SortRows(rows [][]string) {
 	})
 }
 
-// WriteFile writes content to path (creating the directory), exit 2 on error.
+// WriteFile writes content to path (creating the directory), exit 2 on error.  A file that
+// already has exactly this content is left untouched, so make does not rebuild its dependents.
 func WriteFile(path, content string) {
+	if old, err := os.ReadFile(path); err == nil && string(old) == content {
+		return
+	}
 	if err := os.MkdirAll(filepath.Dir(path), 0o755); err != nil {
 		Die("%v", err)
 	}
